@@ -25,7 +25,9 @@ class _:
               "clients": "Optional[Dict[int, Ref_BrokerClientAPI]]", "_brokers": "Dict[int, BrokerMetadata]",
               "_endpoint_factory": ("Ref_EndpointFactory", False), "clientId": ("Any", False), "_retry_policy": ("Any", False),
               "_bootstrap_hosts": ("List[Tuple[str, int]]", False)}
-    invariant = {"timeout-positive": "self.timeout > 0"}
+    invariant = {"timeout-positive": "self.timeout > 0",
+                 # the table of broker clients is dropped by close() only, after the client has been marked closed
+                 "clients-present-while-open": "self._closing or self.clients is not None"}
     rely = {"closing-is-final": "implies(old(self._closing), self._closing)",
             # once closed the table of broker clients is gone for good (nothing creates clients any more)
             "no-clients-once-closed": "implies(old(self._closing) and old(self.clients) is None, self.clients is None)"}
@@ -175,3 +177,16 @@ method("_send_bootstrap_request", "(%s, request: bytes) -> Ref_Deferred" % SELF,
            # suspended, and close() may run, while a connection attempt is pending)
            "call:connect#1": {"no-dial-after-close[C20]": "not self._closing"},
            "call:request#1": {"no-write-after-close[C20]": "not self._closing"}})
+
+
+# ---- C20 / C07: the broker-agnostic request path refuses a closed client and only ever talks through open-client calls --
+contract(K + "_send_broker_unaware_request.<connected>")(type('_', (), dict(
+    sig="(node_id: int) -> bool", props=["C07"], inline=True, closure_env={"self": "Ref_KafkaClient"})))
+
+method("_send_broker_unaware_request", "(%s, requestId: int, request: bytes) -> Ref_Deferred" % SELF, props=["C20", "C07"],
+       locals={"node_ids": "List[int]", "resp": "bytes", "broker": "Ref_BrokerClientAPI"},
+       raises={"ClientError[C20]": "True", "KeyError": "True", "Exception": "True"},
+       loops={"for#1": dict(index="bi", inv=["not old(self._closing)"])},
+       checkpoints={"call:_make_request_to_broker#1": {"never-on-a-closed-client[C20]": "not self._closing"},
+                    "call:_send_bootstrap_request#1": {"only-after-the-known-brokers[C07]": "not old(self._closing)"}},
+       ensures={"refused-when-closed[C20]": "not old(self._closing)"})
